@@ -121,16 +121,16 @@ let () =
       match toks with
       | i :: tl -> run_case (int_of_string i) tl
       | _ -> failwith "lk args");
-  (* get <mode> { table } F <query> { B <szx> }* : the handler's body (one Uri-Query option with
-     these bytes, or none), then its Block2 reassembly for each szx *)
+  (* get <mode> { table } { F <query> }* { B <szx> }* : the handler's body (one Uri-Query option per
+     F with these bytes; F ~ = none), then its Block2 reassembly for each szx *)
   register "get" (fun toks ->
       let toks = (match toks with _mode :: tl -> tl | [] -> []) in
       let (tbl, rest) = build_table [] toks in
-      let (opts, rest) =
-        match rest with
-        | "F" :: "~" :: tl -> ([], tl)
-        | "F" :: f :: tl -> ([bytes_of_tok f], tl)
-        | _ -> ([], rest) in
+      let rec take_opts acc = function
+        | "F" :: "~" :: tl -> take_opts acc tl
+        | "F" :: f :: tl -> take_opts (bytes_of_tok f :: acc) tl
+        | rest -> (List.rev acc, rest) in
+      let (opts, rest) = take_opts [] rest in
       match lf_handle_get tbl opts with
       | Lf503 -> "503"
       | LfFault -> "FAULT"
